@@ -7,7 +7,7 @@ use std::collections::{BTreeMap, BTreeSet};
 use qbice_serialize::Plugin;
 use qbice_stable_type_id::Identifiable;
 use qbice_storage::kv_database::{
-    DiscriminantEncoding, KeyOfSetColumn, KvDatabase, WideColumn, WideColumnValue, WriteBatch,
+    DiscriminantEncoding, KeyOfSetColumn, KvDatabase, SerializationBuffer, WideColumn, WideColumnValue, WriteBatch,
 };
 
 fn json_escape(s: &str) -> String { s.replace('\\', "\\\\").replace('"', "\\\"").replace('\n', "\\n") }
@@ -38,6 +38,11 @@ impl KeyOfSetColumn for SetUnit { type Key = (); type Element = u8; }
 #[stable_type_id_crate(qbice_stable_type_id)]
 struct SetUsize;
 impl KeyOfSetColumn for SetUsize { type Key = usize; type Element = usize; }
+
+#[derive(Debug, Clone, Copy, PartialEq, Eq, PartialOrd, Ord, Hash, Identifiable)]
+#[stable_type_id_crate(qbice_stable_type_id)]
+struct SetWide128;
+impl KeyOfSetColumn for SetWide128 { type Key = u128; type Element = i128; }
 
 #[derive(Debug, Clone, Copy, PartialEq, Eq, PartialOrd, Ord, Hash, Identifiable)]
 #[stable_type_id_crate(qbice_stable_type_id)]
@@ -78,6 +83,7 @@ struct Model {
     set_pair: BTreeMap<(u8, u8), BTreeSet<u32>>,
     set_unit: BTreeSet<u8>,
     set_usize: BTreeMap<usize, BTreeSet<usize>>,
+    set_128: BTreeMap<u128, BTreeSet<i128>>,
     pre_s: BTreeMap<Vec<u8>, String>,
     pre_u: BTreeMap<Vec<u8>, u64>,
     suf_s: BTreeMap<Vec<u8>, String>,
@@ -95,6 +101,13 @@ fn byte_keys() -> Vec<Vec<u8>> {
     v.push(vec![0x01, 0xFF, 0xFF]);
     v
 }
+/// 128-bit values on and around every 7-bit varint group boundary (and their zigzag images)
+fn wide_keys() -> Vec<u128> {
+    let mut v = vec![0u128, 1, 127, 128, 129, 255, 256, u128::MAX, u128::MAX - 1];
+    let mut k = 7;
+    while k < 128 { let p = 1u128 << k; v.extend_from_slice(&[p, p - 1, p + 1, p | 128, (p << 1).wrapping_sub(1)]); k += 7; }
+    v
+}
 fn usize_keys() -> Vec<usize> { vec![0, 5, 127, 128, 255, 256, 16383, 16384, (1 << 32) + 5, (1 << 33) + 5, usize::MAX, usize::MAX - 255] }
 
 fn run<D: KvDatabase>(name: &str, open: &dyn Fn() -> D, seed: u64, rounds: usize) -> u64 {
@@ -107,30 +120,49 @@ fn run<D: KvDatabase>(name: &str, open: &dyn Fn() -> D, seed: u64, rounds: usize
     let mut checks = 0u64;
     for round in 0..rounds {
         let mut batch = db.write_batch();
+        // the write-behind pipeline delivers every write through a serialization buffer that is later consumed by a batch:
+        // route each round either directly or through a buffer (also right after a reopen, when nothing has touched a column yet)
+        let via_buffer = rng.next() % 2 == 0;
+        let mut buffer = db.serialization_buffer();
+        let wkeys = wide_keys();
         let nops = 1 + (rng.next() % 6) as usize;
         for _ in 0..nops {
+            let wk = wkeys[(rng.next() % wkeys.len() as u64) as usize];
+            // elements: signed values whose ZIGZAG image sits on / next to a 7-bit group boundary
+            let we = { let p = wkeys[(rng.next() % wkeys.len() as u64) as usize]; match rng.next() % 4 { 0 => (p >> 1) as i128, 1 => -((p >> 1) as i128), 2 => ((p >> 1) as i128).wrapping_sub(1), _ => p as i128 } };
+            if rng.next() % 6 == 0 {
+                if rng.next() % 3 != 0 {
+                    if via_buffer { buffer.insert_member::<SetWide128>(&wk, &we); } else { batch.insert_member::<SetWide128>(&wk, &we); }
+                    m.set_128.entry(wk).or_default().insert(we); history.push(format!("insert_member SetWide128 {wk} {we}"));
+                } else {
+                    if via_buffer { buffer.delete_member::<SetWide128>(&wk, &we); } else { batch.delete_member::<SetWide128>(&wk, &we); }
+                    if let Some(s) = m.set_128.get_mut(&wk) { s.remove(&we); } history.push(format!("delete_member SetWide128 {wk} {we}"));
+                }
+                continue;
+            }
             let k = keys[(rng.next() % keys.len() as u64) as usize].clone();
             let e = keys[(rng.next() % keys.len() as u64) as usize].clone();
             let uk = ukeys[(rng.next() % ukeys.len() as u64) as usize];
             let ue = ukeys[(rng.next() % ukeys.len() as u64) as usize];
             let pk = ((rng.next() % 3) as u8, [0u8, 0xFE, 0xFF][(rng.next() % 3) as usize]);
             match rng.next() % 16 {
-                0 | 1 => { batch.insert_member::<SetBytes>(&k, &e); m.set_bytes.entry(k.clone()).or_default().insert(e.clone()); history.push(format!("insert_member SetBytes {k:?} {e:?}")); }
-                2 => { batch.delete_member::<SetBytes>(&k, &e); if let Some(s) = m.set_bytes.get_mut(&k) { s.remove(&e); } history.push(format!("delete_member SetBytes {k:?} {e:?}")); }
-                3 | 4 => { let el = (rng.next() % 5) as u32 * 1000; batch.insert_member::<SetPair>(&pk, &el); m.set_pair.entry(pk).or_default().insert(el); history.push(format!("insert_member SetPair {pk:?} {el}")); }
-                5 => { let el = (rng.next() % 5) as u32 * 1000; batch.delete_member::<SetPair>(&pk, &el); if let Some(s) = m.set_pair.get_mut(&pk) { s.remove(&el); } history.push(format!("delete_member SetPair {pk:?} {el}")); }
-                6 => { let el = (rng.next() % 3) as u8 * 127; batch.insert_member::<SetUnit>(&(), &el); m.set_unit.insert(el); history.push(format!("insert_member SetUnit () {el}")); }
-                7 => { batch.insert_member::<SetUsize>(&uk, &ue); m.set_usize.entry(uk).or_default().insert(ue); history.push(format!("insert_member SetUsize {uk} {ue}")); }
-                8 => { let v = format!("s{round}"); batch.put::<WidePre, String>(&k, &v); m.pre_s.insert(k.clone(), v.clone()); history.push(format!("put WidePre/String {k:?} {v}")); }
-                9 => { let v = rng.next(); batch.put::<WidePre, u64>(&k, &v); m.pre_u.insert(k.clone(), v); history.push(format!("put WidePre/u64 {k:?} {v}")); }
-                10 => { let v = format!("t{round}"); batch.put::<WideSuf, String>(&k, &v); m.suf_s.insert(k.clone(), v.clone()); history.push(format!("put WideSuf/String {k:?} {v}")); }
-                11 => { let v = rng.next(); batch.put::<WideSuf, u64>(&k, &v); m.suf_u.insert(k.clone(), v); history.push(format!("put WideSuf/u64 {k:?} {v}")); }
-                12 => { batch.delete::<WidePre, String>(&k); m.pre_s.remove(&k); history.push(format!("delete WidePre/String {k:?}")); }
-                13 => { batch.delete::<WideSuf, u64>(&k); m.suf_u.remove(&k); history.push(format!("delete WideSuf/u64 {k:?}")); }
-                14 => { let v = format!("u{round}"); batch.put::<WideUnit, String>(&(), &v); m.unit_s = Some(v.clone()); history.push(format!("put WideUnit/String () {v}")); }
-                _ => { let v = rng.next(); batch.put::<WideUnit, u64>(&(), &v); m.unit_u = Some(v); history.push(format!("put WideUnit/u64 () {v}")); }
+                0 | 1 => { if via_buffer { buffer.insert_member::<SetBytes>(&k, &e); } else { batch.insert_member::<SetBytes>(&k, &e); } m.set_bytes.entry(k.clone()).or_default().insert(e.clone()); history.push(format!("insert_member SetBytes {k:?} {e:?}")); }
+                2 => { if via_buffer { buffer.delete_member::<SetBytes>(&k, &e); } else { batch.delete_member::<SetBytes>(&k, &e); } if let Some(s) = m.set_bytes.get_mut(&k) { s.remove(&e); } history.push(format!("delete_member SetBytes {k:?} {e:?}")); }
+                3 | 4 => { let el = (rng.next() % 5) as u32 * 1000; if via_buffer { buffer.insert_member::<SetPair>(&pk, &el); } else { batch.insert_member::<SetPair>(&pk, &el); } m.set_pair.entry(pk).or_default().insert(el); history.push(format!("insert_member SetPair {pk:?} {el}")); }
+                5 => { let el = (rng.next() % 5) as u32 * 1000; if via_buffer { buffer.delete_member::<SetPair>(&pk, &el); } else { batch.delete_member::<SetPair>(&pk, &el); } if let Some(s) = m.set_pair.get_mut(&pk) { s.remove(&el); } history.push(format!("delete_member SetPair {pk:?} {el}")); }
+                6 => { let el = (rng.next() % 3) as u8 * 127; if via_buffer { buffer.insert_member::<SetUnit>(&(), &el); } else { batch.insert_member::<SetUnit>(&(), &el); } m.set_unit.insert(el); history.push(format!("insert_member SetUnit () {el}")); }
+                7 => { if via_buffer { buffer.insert_member::<SetUsize>(&uk, &ue); } else { batch.insert_member::<SetUsize>(&uk, &ue); } m.set_usize.entry(uk).or_default().insert(ue); history.push(format!("insert_member SetUsize {uk} {ue}")); }
+                8 => { let v = format!("s{round}"); if via_buffer { buffer.put::<WidePre, String>(&k, &v); } else { batch.put::<WidePre, String>(&k, &v); } m.pre_s.insert(k.clone(), v.clone()); history.push(format!("put WidePre/String {k:?} {v}")); }
+                9 => { let v = rng.next(); if via_buffer { buffer.put::<WidePre, u64>(&k, &v); } else { batch.put::<WidePre, u64>(&k, &v); } m.pre_u.insert(k.clone(), v); history.push(format!("put WidePre/u64 {k:?} {v}")); }
+                10 => { let v = format!("t{round}"); if via_buffer { buffer.put::<WideSuf, String>(&k, &v); } else { batch.put::<WideSuf, String>(&k, &v); } m.suf_s.insert(k.clone(), v.clone()); history.push(format!("put WideSuf/String {k:?} {v}")); }
+                11 => { let v = rng.next(); if via_buffer { buffer.put::<WideSuf, u64>(&k, &v); } else { batch.put::<WideSuf, u64>(&k, &v); } m.suf_u.insert(k.clone(), v); history.push(format!("put WideSuf/u64 {k:?} {v}")); }
+                12 => { if via_buffer { buffer.delete::<WidePre, String>(&k); } else { batch.delete::<WidePre, String>(&k); } m.pre_s.remove(&k); history.push(format!("delete WidePre/String {k:?}")); }
+                13 => { if via_buffer { buffer.delete::<WideSuf, u64>(&k); } else { batch.delete::<WideSuf, u64>(&k); } m.suf_u.remove(&k); history.push(format!("delete WideSuf/u64 {k:?}")); }
+                14 => { let v = format!("u{round}"); if via_buffer { buffer.put::<WideUnit, String>(&(), &v); } else { batch.put::<WideUnit, String>(&(), &v); } m.unit_s = Some(v.clone()); history.push(format!("put WideUnit/String () {v}")); }
+                _ => { let v = rng.next(); if via_buffer { buffer.put::<WideUnit, u64>(&(), &v); } else { batch.put::<WideUnit, u64>(&(), &v); } m.unit_u = Some(v); history.push(format!("put WideUnit/u64 () {v}")); }
             }
         }
+        if via_buffer { batch.consume_serialization_buffer(buffer); history.push("(all of the above recorded in a serialization buffer, then consumed)".into()); } else { drop(buffer); }
         batch.commit();
         history.push("commit".into());
         if round % 7 == 6 {
@@ -168,10 +200,70 @@ fn run<D: KvDatabase>(name: &str, open: &dyn Fn() -> D, seed: u64, rounds: usize
             checks += 1;
             if got != want { found(&format!("{name}: scan_members SetUsize key {uk}"), &hist(), &format!("{got:?}"), &format!("{want:?}")); }
         }
+        for wk in &wide_keys() {
+            let got: BTreeSet<i128> = match std::panic::catch_unwind(std::panic::AssertUnwindSafe(|| db.scan_members::<SetWide128>(wk).collect::<BTreeSet<i128>>())) {
+                Ok(g) => g,
+                Err(_) => found(&format!("{name}: scan_members SetWide128 key {wk} panicked"), &hist(), "panic", "no panic"),
+            };
+            let want = m.set_128.get(wk).cloned().unwrap_or_default();
+            checks += 1;
+            if got != want { found(&format!("{name}: scan_members SetWide128 key {wk}"), &hist(), &format!("{got:?}"), &format!("{want:?}")); }
+        }
         let g = db.get_wide_column::<WideUnit, String>(&()); checks += 1;
         if g != m.unit_s { found(&format!("{name}: get WideUnit/String"), &hist(), &format!("{g:?}"), &format!("{:?}", m.unit_s)); }
         let g = db.get_wide_column::<WideUnit, u64>(&()); checks += 1;
         if g != m.unit_u { found(&format!("{name}: get WideUnit/u64"), &hist(), &format!("{g:?}"), &format!("{:?}", m.unit_u)); }
+    }
+    checks
+}
+
+/// directed: after a close / reopen the FIRST thing that touches a column is an operation delivered through a
+/// serialization buffer (this is how the write-behind pipeline delivers every write) -- for each of the four operations
+fn first_touch_after_reopen<D: KvDatabase>(name: &str, open: &dyn Fn() -> D) -> u64 {
+    let mut checks = 0;
+    for which in 0..4 {
+        {
+            let db = open();
+            let mut b = db.write_batch();
+            b.insert_member::<SetUsize>(&(1000 + which), &10);
+            b.insert_member::<SetUsize>(&(1000 + which), &11);
+            b.insert_member::<SetUsize>(&(2000 + which), &20);
+            b.put::<WideSuf, u64>(&vec![which as u8, 1], &77);
+            b.put::<WideSuf, u64>(&vec![which as u8, 2], &88);
+            b.commit();
+        }
+        let db = open();
+        let mut buffer = db.serialization_buffer();
+        let desc;
+        let (want_set, want_a): (BTreeSet<usize>, Option<u64>);
+        match which {
+            0 => { buffer.delete_member::<SetUsize>(&(1000 + which), &10); desc = "buffered delete_member"; want_set = [11].into(); want_a = Some(77); }
+            1 => { buffer.insert_member::<SetUsize>(&(1000 + which), &12); desc = "buffered insert_member"; want_set = [10, 11, 12].into(); want_a = Some(77); }
+            2 => { buffer.delete::<WideSuf, u64>(&vec![which as u8, 1]); desc = "buffered delete"; want_set = [10, 11].into(); want_a = None; }
+            _ => { buffer.put::<WideSuf, u64>(&vec![which as u8, 1], &99); desc = "buffered put"; want_set = [10, 11].into(); want_a = Some(99); }
+        }
+        let mut b = db.write_batch();
+        b.consume_serialization_buffer(buffer);
+        b.commit();
+        let input = format!("members {{10,11}} of key {} and {{20}} of key {} and two wide-column values committed; close; reopen; FIRST access to the column: {desc} through a serialization buffer, consumed and committed; then read", 1000 + which, 2000 + which);
+        {
+            let dbr: &D = &db;
+            let got: BTreeSet<usize> = dbr.scan_members::<SetUsize>(&(1000 + which)).collect(); checks += 1;
+            if got != want_set { found(&format!("{name}: scan_members after {desc} as first touch after reopen"), &input, &format!("{got:?}"), &format!("{want_set:?}")); }
+            let got: BTreeSet<usize> = dbr.scan_members::<SetUsize>(&(2000 + which)).collect(); checks += 1;
+            if got != [20].into() { found(&format!("{name}: scan_members of an untouched key after {desc} as first touch after reopen"), &input, &format!("{got:?}"), "{20}"); }
+            let g = dbr.get_wide_column::<WideSuf, u64>(&vec![which as u8, 1]); checks += 1;
+            if g != want_a { found(&format!("{name}: get_wide_column after {desc} as first touch after reopen"), &input, &format!("{g:?}"), &format!("{want_a:?}")); }
+            let g = dbr.get_wide_column::<WideSuf, u64>(&vec![which as u8, 2]); checks += 1;
+            if g != Some(88) { found(&format!("{name}: get_wide_column of an untouched key after {desc} as first touch after reopen"), &input, &format!("{g:?}"), "Some(88)"); }
+        }
+        drop(db);
+        // and once more after another reopen
+        let db = open();
+        let got: BTreeSet<usize> = db.scan_members::<SetUsize>(&(1000 + which)).collect(); checks += 1;
+        if got != want_set { found(&format!("{name}: scan_members after {desc} as first touch after reopen, read after a second reopen"), &input, &format!("{got:?}"), &format!("{want_set:?}")); }
+        let g = db.get_wide_column::<WideSuf, u64>(&vec![which as u8, 1]); checks += 1;
+        if g != want_a { found(&format!("{name}: get_wide_column after {desc} as first touch after reopen, read after a second reopen"), &input, &format!("{g:?}"), &format!("{want_a:?}")); }
     }
     checks
 }
@@ -193,10 +285,14 @@ fn main() {
     {
         use qbice_storage::kv_database::rocksdb::RocksDB;
         n += run("rocksdb", &|| RocksDB::open(&p1, Plugin::default()).unwrap(), seed, rounds);
+        let p1b = base.join("rocks_first_touch");
+        n += first_touch_after_reopen("rocksdb", &|| RocksDB::open(&p1b, Plugin::default()).unwrap());
     }
     {
         use qbice_storage::kv_database::fjall::Fjall;
         n += run("fjall", &|| Fjall::open(&p2, Plugin::default()).unwrap(), seed, rounds);
+        let p2b = base.join("fjall_first_touch");
+        n += first_touch_after_reopen("fjall", &|| Fjall::open(&p2b, Plugin::default()).unwrap());
     }
     let _ = std::fs::remove_dir_all(&base);
     println!("{{\"found\": false, \"searched\": {n}}}");
